@@ -4,7 +4,7 @@ import cxx_specs as XS
 
 PROPERTY = "C17"
 LEVEL = "proof"
-EXPLANATION = ""
+EXPLANATION = ('Proof that the portable fallbacks (rotations, sign extension, integer <-> double conversions, little-endian loads and stores, vector logic, mulh / smulh carry network, fenv rounding-mode mapping) compute the specified values for all operands.')
 TRUSTED = ["SSE2 / AES-NI intrinsic semantics per the Intel SDM (the reference side of the comparison)", "host IEEE-754 arithmetic and libm sqrt",
            "the C library applies fesetround / fegetround as requested"]
 ASSUMPTIONS = ["distributivity of the 128-bit product over 32-bit halves (mulh): machine arithmetic treated as mathematical",
